@@ -29,9 +29,11 @@ import (
 	"context"
 	"errors"
 	"fmt"
+	"encoding/json"
 	"io"
 	"net"
 	"net/netip"
+	"os"
 	"slices"
 	"sync"
 	"testing"
@@ -940,19 +942,33 @@ func c19RunCase(t *testing.T, c c19Case, r *vp.Rec) (err error) {
 		}
 	}
 	stallInfo := ""
+	kuDeadlock := false
 	if stalled {
+		// Signature of the key-update deadlock: both endpoints are in the middle of a
+		// 1-RTT key update and packets fail authentication.
+		var upd [2]bool
+		var authFail [2]int64
+		for i, c := range x.conn {
+			c.runOnLoop(ctx, func(now time.Time, c *Conn) {
+				upd[i], authFail[i] = c.keysAppData.updating, c.keysAppData.authFailures
+			})
+		}
+		kuDeadlock = upd[0] && upd[1] && authFail[0]+authFail[1] > 0
+		stallInfo = fmt.Sprintf("key update in progress: client=%v server=%v, packets failing authentication: client=%d server=%d; ", upd[0], upd[1], authFail[0], authFail[1])
+		diag := ""
 		for _, d := range x.dirs {
 			if d != nil && !d.prefix {
 				select {
 				case <-d.rdone:
 				default:
-					stallInfo = x.diag(d)
+					diag = x.diag(d)
 				}
 			}
-			if stallInfo != "" {
+			if diag != "" {
 				break
 			}
 		}
+		stallInfo += diag
 	}
 	var freezeErr error
 	if frozen {
@@ -971,6 +987,11 @@ func c19RunCase(t *testing.T, c c19Case, r *vp.Rec) (err error) {
 	<-sel
 
 	// ---- verdict
+	if stalled && kuDeadlock && c19FindingOpen()[c19KeyUpdateFinding] {
+		r.Class("known-keyupdate-deadlock")
+		r.Discard("known finding " + c19KeyUpdateFinding)
+		return nil
+	}
 	if len(x.misc) > 0 {
 		return errors.New(x.misc[0])
 	}
@@ -1109,6 +1130,31 @@ func c19Known(c c19Case) string {
 	}
 	return ""
 }
+
+const c19KeyUpdateFinding = "c19-keyupdate-deadlock"
+
+// c19FindingOpen reports whether KNOWN_FINDINGS.json lists key as an open finding of C19.
+// (Spec.Known can only look at the case; the key-update deadlock depends on packet
+// numbers that are only known at run time, so the property recognises its signature
+// itself and skips such runs while the finding is open. Replays are never skipped.)
+var c19FindingOpen = sync.OnceValue(func() map[string]bool {
+	m := map[string]bool{}
+	b, err := os.ReadFile(os.Getenv("VP_KNOWN"))
+	if err != nil || os.Getenv("VP_REPLAY") != "" {
+		return m
+	}
+	var kf struct {
+		Findings []struct{ Key, Property, Status string }
+	}
+	if json.Unmarshal(b, &kf) == nil {
+		for _, f := range kf.Findings {
+			if f.Property == "C19" && f.Status == "open" {
+				m[f.Key] = true
+			}
+		}
+	}
+	return m
+})
 
 func c19Prop(c c19Case, r *vp.Rec) error {
 	c = c19Norm(c)
